@@ -260,6 +260,21 @@ def run(ck, tier):
     n3 = ck.guard(shared_layout_findings, ck, cx, 'R3', ('ReadDeviceInformationResponse', 'ReadDeviceInformationRequest'),
                   'a client following the more-follows chain reads the continuation fields from the wrong bytes', ('R2', 'R3'))
     ck.floor('R3', n3 or 0, 2, 'MEI header layout obligations')
+    nx = 0
+    for p in cx.enum(rex, req, max_depth=0):
+        if p.exit and p.exit[0] == 'exc':
+            continue
+        annotate(p, heap=False)
+        r = ret_expr(p)
+        if isinstance(r, ast.Call) and callee_name(r) == 'doException':
+            nx += 1
+            conds = [U(e.node) for e in p.ev if e.kind == 'cond']
+            foreign = [c for c in conds if 'read_code' not in c and 'object_id' not in c]
+            ck.ob('R4', rex.qn, 'an exception response is returned only for an invalid read code / object id', not foreign,
+                  detail='identity-request-refused-on %s' % foreign[:2], loc=cx.floc(rex),
+                  message='ReadDeviceInformationRequest.execute refuses a request with valid read code and object id (conditions %s): '
+                          'configured objects are not returned' % foreign[:2])
+    ck.floor('R4', nx, 1, 'exception-returning paths of the identity request')
     ck.assume('completeness / exactly-once over all identities and whole continuation chains is not decided; these are the structural conditions it rests on')
     return cx.idx
 
